@@ -258,6 +258,8 @@ class Env:
             e = e.parent
         if self.modenv is not None and self.modenv.has(name):
             return self.modenv.get(name)
+        if name == "__name__" and self.modenv is not None:
+            return self.modenv.modname
         if name in interp.builtins:
             return interp.builtins[name]
         raise PyRaise(NameError(f"name '{name}' is not defined"))
@@ -736,6 +738,8 @@ class Interp:
         raise EngineError("unary op")
 
     def unop(self, op, v):
+        if hasattr(v, "sym_unop"):
+            return v.sym_unop(self, op)
         if op == "neg":
             if isinstance(v, (SV, CV)):
                 return -v
